@@ -47,6 +47,11 @@ func c11MergeCfg(e int) bs.BloomSearchEngineConfig {
 		c.MaxRowGroupRows = 2
 		c.MaxFileSize = 900
 		c.MaxFilesToMergePerOperation = 3
+	case 3:
+		// byte limit between two and three of batch 5's highly compressible one-row blocks
+		// (uncompressed ~250 bytes each, a few dozen compressed)
+		c.MaxRowGroupBytes = 600
+		c.MaxFilesToMergePerOperation = 4
 	}
 	return c
 }
@@ -63,12 +68,14 @@ func c11Batch(b, seq int) []map[string]any {
 		return []map[string]any{{"s": s, "p": "p", "n": -3.5, "t": "z"}, {"s": s, "p": "p", "n": 9, "t": "x"}}
 	case 3:
 		return []map[string]any{{"s": s, "t": "x"}}
+	case 5:
+		return []map[string]any{{"s": s, "p": "p", "n": 2, "t": "x", "pad": strings.Repeat("ab ", 64)}}
 	default:
 		return []map[string]any{{"s": s, "p": "q", "n": 5, "t": "dup"}, {"s": s, "p": "q", "n": 5, "t": "dup"}, {"s": s, "p": "p", "n": uint64(1) << 63, "t": "big"}}
 	}
 }
 
-const c11Batches, c11Engines = 5, 3
+const c11Batches, c11Engines = 6, 4
 
 type c11op struct {
 	merge bool
